@@ -69,6 +69,10 @@ func scriptName(s []session) string {
 }
 
 func (harness) Configs(tier string) []xplore.Config {
+	return xplore.WithReverse(configsBase(tier))
+}
+
+func configsBase(tier string) []xplore.Config {
 	var out []xplore.Config
 	var scripts [][]session
 	for _, a := range sessAlpha {
@@ -80,7 +84,9 @@ func (harness) Configs(tier string) []xplore.Config {
 	var ctls [][]ctl
 	ctls = append(ctls, nil, []ctl{{"adddup", 0}, {"removeunknown", 0}})
 	for r := 0; r <= 2; r++ {
-		ctls = append(ctls, []ctl{{"reconnect", r}}, []ctl{{"remove", r}}, []ctl{{"remove", r}, {"add", r + 1}})
+		ctls = append(ctls, []ctl{{"reconnect", r}}, []ctl{{"remove", r}}, []ctl{{"remove", r}, {"add", r + 1}},
+			// a re-Add racing the Remove of the same name: refused as a duplicate, or accepted only once Remove completed
+			[]ctl{{"remove", r}, {"addrace", r}})
 	}
 	bound := 2
 	if tier == "thorough" {
@@ -202,7 +208,7 @@ func (harness) Run(cfg xplore.Config, ch vrt.Chooser, trace bool) (xplore.Outcom
 	viol := func(class, format string, a ...interface{}) {
 		out.Violations = append(out.Violations, xplore.Violation{Class: class, Msg: fmt.Sprintf(format, a...)})
 	}
-	res := vrt.Run(ch, vrt.Options{Trace: trace, EarlyTimers: true}, func() {
+	res := vrt.Run(ch, vrt.Options{Reverse: cfg.Reverse, Trace: trace, EarlyTimers: true}, func() {
 		e := &env{d: d, nstream: map[string]int{}}
 		manager.VerifSetSubscribeClient(func(ctx context.Context, conn *grpc.ClientConn) (gpb.GNMI_SubscribeClient, error) {
 			// which target? the outgoing metadata carries nothing useful; the
@@ -232,6 +238,7 @@ func (harness) Run(cfg xplore.Config, ch vrt.Chooser, trace bool) (xplore.Outcom
 		}
 		sr := &gpb.SubscribeRequest{Request: &gpb.SubscribeRequest_Subscribe{Subscribe: &gpb.SubscriptionList{}}}
 		managed := map[string]bool{}
+		raceAdded := false
 		for _, t := range d.targets {
 			if err := m.Add(t, &tpb.Target{Addresses: []string{t}}, sr); err != nil {
 				viol("add-refused", "Add(%s): %v", t, err)
@@ -245,7 +252,7 @@ func (harness) Run(cfg xplore.Config, ch vrt.Chooser, trace bool) (xplore.Outcom
 			// manager thread parked in Recv) or a timer is armed for it
 			if vrt.ArmedTimers() == 0 {
 				for _, t := range d.targets {
-					if managed[t] && !e.inSession(t) {
+					if managed[t] && !e.inSession(t) && !hasRace(d.ctls) {
 						viol("retry-stopped", "round %d: target %s is managed, not in a session, and no timer is armed: retry has silently stopped; parked: %v; trace: %s", round, t, vrt.ParkedInfo(), e.render(t))
 					}
 				}
@@ -257,7 +264,9 @@ func (harness) Run(cfg xplore.Config, ch vrt.Chooser, trace bool) (xplore.Outcom
 				co := co
 				switch co.op {
 				case "remove":
-					managed["t1"] = false
+					if !hasRace(d.ctls) {
+						managed["t1"] = false
+					}
 				case "add":
 					managed["t1"] = true
 				}
@@ -276,6 +285,11 @@ func (harness) Run(cfg xplore.Config, ch vrt.Chooser, trace bool) (xplore.Outcom
 							viol("add-refused", "re-Add(t1) after Remove: %v", err)
 						}
 						e.add("t1", "added", -1, "")
+					case "addrace":
+						if err := m.Add("t1", &tpb.Target{Addresses: []string{"t1"}}, sr); err == nil {
+							e.add("t1", "added", -1, "")
+							raceAdded = true
+						}
 					case "adddup":
 						before := len(e.log)
 						if err := m.Add("t1", &tpb.Target{Addresses: []string{"t1"}}, sr); err == nil {
@@ -293,6 +307,11 @@ func (harness) Run(cfg xplore.Config, ch vrt.Chooser, trace bool) (xplore.Outcom
 		}
 		vrt.Idle()
 		// wind down: remove what is still managed
+		if hasRace(d.ctls) {
+			// Remove and a racing Add both ran: the target is managed iff the Add
+			// was accepted (which is only legitimate after the Remove completed)
+			managed["t1"] = raceAdded
+		}
 		for _, t := range d.targets {
 			if managed[t] {
 				if err := m.Remove(t); err != nil {
@@ -320,6 +339,15 @@ func (harness) Run(cfg xplore.Config, ch vrt.Chooser, trace bool) (xplore.Outcom
 		viol(hutil.AbortClass(res.Aborted, res.Panic), "%s %s", res.Aborted, strings.Join(res.Parked, "; "))
 	}
 	return out, res
+}
+
+func hasRace(cs []ctl) bool {
+	for _, c := range cs {
+		if c.op == "addrace" {
+			return true
+		}
+	}
+	return false
 }
 
 type targetKey struct{}
